@@ -12,22 +12,23 @@ theorem closed_U0 : Closed net0 U0 := by unfold Closed; decide
 /-- `C11_two_requests` on the history of `one_load_not_enough`: the second request (no heads at
 all) completes the first one. -/
 theorem c11_instance :
-    let s := run net0 { sem := 2 } [.load 1 [3], .acquire 0, .fetchOk 0, .cancel 1]
+    let s := run net0 { sem := 2 } [.load 1 [3], .acquire 0, .fetched 0, .finish 0, .cancel 1]
     let s1 := drain net0 200 (step net0 s (.load 2 [3]))
     let s2 := drain net0 20 (step net0 s1 (.load 3 []))
     quiescent s2 = true ∧ s2.failed = [] ∧ ∀ x, ReachV net0 [3] x → x ∈ s2.log := by
   have h := C11_two_requests (net := net0) (c := 2) (U := U0) (by decide) closed_U0
-    [.load 1 [3], .acquire 0, .fetchOk 0, .cancel 1] (actsIn_of_all (by decide))
+    [.load 1 [3], .acquire 0, .fetched 0, .finish 0, .cancel 1] (actsIn_of_all (by decide))
     2 [3] (by decide) 3 [] (by decide) 200 20 (by decide) (by decide) (by decide)
   obtain ⟨_, _, h3, h4, h5, _⟩ := h
   exact ⟨h3, h4, fun x hx => h5 x (by simpa using hx)⟩
 
 /-- `C10_rejected_never_block` after a mixed announcement processed in an arbitrary order -/
 theorem c10_instance :
-    let s := run net0 { sem := 2 } [.load 1 [9, 8, 3], .acquire 2, .acquire 0, .fetchOk 2]
+    let s := run net0 { sem := 2 } [.load 1 [9, 8, 3], .acquire 2, .acquire 0, .fetched 2, .fetched 0, .finish 2]
     ∀ x, ReachV net0 [9, 3, 8] x → x ∈ (drain net0 100 (step net0 s (.load 2 [9, 3, 8]))).log := by
   have h := C10_rejected_never_block (net := net0) (c := 2) (U := U0) (by decide) closed_U0
-    [.load 1 [9, 8, 3], .acquire 2, .acquire 0, .fetchOk 2] (actsIn_of_all (by decide)) (noCancel_of_all (by decide))
+    [.load 1 [9, 8, 3], .acquire 2, .acquire 0, .fetched 2, .fetched 0, .finish 2]
+    (actsIn_of_all (by decide)) (noCancel_of_all (by decide))
     2 [9, 3, 8] (by decide) 100 (by decide)
   exact h.2.1
 
